@@ -59,6 +59,16 @@ finally:
     sh("timeout 300 ./check C04 >/dev/null 2>&1", cwd=V)
 dst = os.path.join(V, "seeded", sid)
 os.makedirs(dst, exist_ok=True)
+if "--no-tests" in sys.argv and os.path.exists(os.path.join(dst, "meta.json")):
+    # a re-run of the checks only: keep the earlier pytest confirmation and the results of checks not re-run now
+    old = json.load(open(os.path.join(dst, "meta.json")))
+    for k in ("baseline_tests_passing_with_patch", "baseline_tests_missing"):
+        if k in old and k not in meta:
+            meta[k] = old[k]
+    if "baseline_tests_passing_with_patch" in meta:
+        meta["ran"].insert(0, "pytest (pinned suite) in scratch worktree with patch (earlier run, head %s)" % old.get("repo_head"))
+    for c, r in old.get("checks", {}).items():
+        meta.setdefault("checks", {}).setdefault(c, r)
 for f in ("patch.diff", "demo.py", "notes.md"):
     if os.path.exists(os.path.join(src, f)):
         shutil.copy(os.path.join(src, f), os.path.join(dst, f))
